@@ -35,7 +35,7 @@ func (c10) Assumptions() []string {
 	}
 }
 func (c10) Required(tier string) []string {
-	req := []string{"H-hostile", "H-error", "H-reenter", "B-scribble", "B-resize", "D-dirty", "M-guard", "hostile-offset-out-of-range-on-consumed-member", "doc-toodeep", "doc-megatoken", "doc-truncated", "doc-random", "doc-cut-off-part-in-spare-capacity", "doc-from-the-entry-points-own-domain-cut-mid-token"}
+	req := []string{"H-hostile", "H-error", "H-reenter", "B-scribble", "B-resize", "D-dirty", "M-guard", "hostile-offset-out-of-range-on-consumed-member", "doc-toodeep", "doc-megatoken", "doc-truncated", "doc-random", "doc-cut-off-part-in-spare-capacity", "doc-from-the-entry-points-own-domain-cut-mid-token", "hostile-tiny-inputs-after-a-successful-read-on-one-reader"}
 	return req
 }
 
@@ -211,6 +211,26 @@ func (c10) Gen(r *Rand, sc *Scenario, tier string) {
 		sc.Tasks = [][]Op{ops}
 		return
 	}
+	if !faultFree && r.Chance(1, 10) {
+		// history on the one long-lived ValueReader: a direct read that succeeds (size hints, scratch,
+		// retained containers), then hostile tiny inputs through the same entry points
+		n := r.Range(2, 6)
+		for i := 0; i < n; i++ {
+			name := vrOps[r.Intn(len(vrOps))]
+			var d Doc
+			if i == 0 || r.Chance(1, 3) {
+				d = docOf(genContainerDoc(r, name == "VR.ReadObject" || (name == "VR.ReadValue" && r.Chance(1, 2)), r.Range(1, 12), 300), "container")
+			} else {
+				tiny := []string{"", " ", "\n\t", "[", "{", "]", "}", ",", "n", "\"", "[]", "{}", "null", "0", "\x00", "[1", "{\"a\"", "\xff"}
+				d = docOf([]byte(tiny[r.Intn(len(tiny))]), "random")
+			}
+			sc.Docs = append(sc.Docs, d)
+			ops = append(ops, Op{Kind: name, Doc: i, A: r.Intn(4), B: r.Intn(60)})
+		}
+		sc.Tasks = [][]Op{ops}
+		sc.Cfg["reader-history"] = 1
+		return
+	}
 	for i := 0; i < nops; i++ {
 		if faultFree {
 			sc.Docs = append(sc.Docs, genDoc(r, []string{"tiny", "small", "medium"}[r.Intn(3)]))
@@ -257,6 +277,9 @@ func (c10) Exec(sc *Scenario, st *Stats) *Violation {
 	shared := &rjson.Buffer{}
 	x := &opCtx{st: st, tg: &targets{}, reader: &rjson.ValueReader{}}
 	var scratch []byte
+	if sc.cfg("reader-history") == 1 {
+		st.probe("hostile-tiny-inputs-after-a-successful-read-on-one-reader")
+	}
 	for oi, op := range sc.Tasks[0] {
 		d := sc.Docs[op.Doc]
 		data := d.Bytes()
